@@ -331,6 +331,25 @@ ShiftSelectBig(tms, tes, bs, scaleBit, shiftPos) ==
 ApproxFloorBig(x, scale, shift, tm, te) ==
     BigToIntCap(BigFloorShr(BigMul(BigAbs(x), ApproxNumBig(scale, shift, tm, te)), DyK(shift, te)))
 
+\* ---- the boundary of the option ranges: shifts up to 31, scales up to 2^31 -------------------------------
+\* image of the fake-quantised counterpart with unbounded integers: clip(floor(x * tm * 2^te), 0, 2^ob - 1)
+FakeLevelBig(x, tm, te, ob) ==
+    LET p == BigMul(x, tm)
+        q == IF te >= 0 THEN BigShl(p, te) ELSE BigFloorShr(p, -te)
+    IN  BigToIntCap(BigClip(q, BigInt(0), BigInt(L(ob))))
+
+\* 2^shift as a 32-bit two's-complement operand (what `2 ** shift` is when the shift is an int32 tensor):
+\* exact up to 30, -2^31 at 31
+Wrap32Pow2Neg(shift) == shift = 31
+
+\* The REFERENCE requantisation is RequantBig: unbounded integers, every admissible shift 0..31.
+\* impl "wrap32" (deliberately wrong, expected-to-fail sanity variant): the divisor 2^shift is evaluated in 32-bit
+\* two's complement, so that at shift 31 the division is by -2^31 and the sign of every pre-activation flips.
+RequantImplBig(impl, acc, scale, addend, shift, lo, hi) ==
+    IF impl = "wrap32" /\ Wrap32Pow2Neg(shift)
+    THEN BigToIntCap(BigClip(BigFloorShr(BigNeg(BigAdd(BigMul(acc, scale), addend)), shift), BigInt(lo), BigInt(hi)))
+    ELSE RequantBig(acc, scale, addend, shift, lo, hi)
+
 (***************************************************************************)
 (* Part D.  life-cycle of a conversion (variable-free part; the state      *)
 (* machine is IntegerizeLife, the trace walk is in IntegerizeTrace).       *)
